@@ -186,7 +186,7 @@ static int cmdDet(int argc, char **argv) {
   std::vector<Out> runs;
   runs.push_back(all(0x00));
   runs.push_back(all(0xA5));
-  runs.push_back(all(0xFF));
+  runs.push_back(all(0x01));   // the one byte value an uninitialised bool reads as a well-formed `true`
   fillnew::set(0x5A);
   (void)compile(otherText, xcmp::DriverAction::EMIT_BINARY, "xtool.det.other");
   fillnew::set(-1);
